@@ -109,7 +109,7 @@ CHECKS = {
     technique="bounded symbolic execution (CrossHair/z3) of the real consumeNumberEntity/consumeEntity/trie/htmlentityreplace_errors against an independent reference over Python's html.entities tables; numeric value closed for an UNBOUNDED symbolic integer; z3 query on the replacement table",
     text="Numeric references: consumeNumberEntity is closed for every non-negative integer value (unbounded symbolic n via a stub of the digit parser) and every terminator character; the unstubbed digit path for <= 2/3 class digits, 0..12/40 leading zeros, all five contexts. "
          "Named references: for all legacy names + every 21st (quick) / all 2231 names (thorough), followed by every character that continues towards a longer name and 15 class representatives incl. EOF, in data, RCDATA and the three attribute contexts, the real entry points are compared with the standard's longest-match + attribute-exception rule (R10). "
-         "Arbitrary strings of <= 1/2 Unicode characters after '&' fully symbolic. Tables: entities == html.entities.html5; replacement table vs the standard for every value (z3). Reverse map: htmlentityreplace_errors output decodes back (R10) over a class alphabet.",
+         "Arbitrary strings of <= 1 Unicode character after '&' fully symbolic. Tables: entities == html.entities.html5; replacement table vs the standard for every value (z3). Reverse map: htmlentityreplace_errors output decodes back (R10) over a class alphabet.",
     note="R10 reference and Python's stdlib tables trusted; tails of named references are class representatives (data-independence of consumeEntity w.r.t. characters it only compares with asciiLetters/digits/'=' is assumed); C1-control numeric references are a listed known finding. " + NOTE_COMMON,
     design="§3 C14"),
  "C18": dict(
